@@ -446,6 +446,14 @@ class GeoStoreMachine(StoreMachine):
                         geo.set_column_num_layers(col)
                 geo.setup_block_name_index()
                 geo.setup_block_connection_name_index()
+            if sub2 % 11 in (3, 4):
+                # layer centres that are not the mid-elevation, among them a centre at 0.00
+                for lay in geo.layerlist[1:]:
+                    if lay.bottom < 0.0 < lay.top and sub2 % 11 == 3:
+                        lay.centre = 0.0
+                    elif rng.random() < 0.4:
+                        lay.centre = lay.bottom + rng.choice((0.25, 0.75)) * (lay.top - lay.bottom)
+                ctx.probes['layer_centres_off_mid'] += 1
             if sub2 % 7 == 0:
                 col = geo.columnlist[0]
                 import numpy as np
@@ -527,6 +535,8 @@ class GeoStoreMachine(StoreMachine):
             ctx.digest.add('FOREIGN', data)
         elif kind == 'SHIPPED':
             i = (7, 5, 6, 1, 3, 2, 4)[ch[1] % (3 if ctx.knobs.get('tier') != 'thorough' else 7)]
+            if ctx.knobs.get('tier') != 'thorough' and ch[1] % 16 >= 12:
+                i = (1, 3, 2, 4)[ch[1] % 4]      # the larger ones (blank header fields) less often
             name = self.NAMES[ch[0] % 3]
             data = geo_build.shipped_bytes(i)
             ctx.fs.put(name + '.geo', data)
